@@ -18,7 +18,7 @@ mod sut;
 use core::{Scenario, Tier};
 
 fn scenarios() -> Vec<&'static dyn Scenario> {
-    vec![&c20::C20Lib, &c20x::C20Fmt, &c20x::C20Cli, &c20x::C20Macro, &c11::C11Threads, &c08::C08Images, &c17::C17Corrupt, &c12::C12Deliveries, &c12::C12Subsets, &c12::C12XmodEnumeral, &c12::C12XmodName, &c10::C10Faults]
+    vec![&c20::C20Lib, &c20x::C20Fmt, &c20x::C20Cli, &c20x::C20Macro, &c11::C11Threads { xmod: false }, &c11::C11Threads { xmod: true }, &c08::C08Images, &c17::C17Corrupt, &c12::C12Deliveries, &c12::C12Subsets, &c12::C12XmodEnumeral, &c12::C12XmodName, &c10::C10Faults, &c10::C10XmodName]
 }
 
 fn meta(prop: &str) -> (&'static str, Vec<&'static str>, serde_json::Value) {
